@@ -70,19 +70,19 @@ impl Phase for TokenSweep {
 
 // ---------------------------------------------------------------------------------------------------
 
-/// all ASTs with at most `max_ops` operator nodes over all operators
+/// all ASTs with at most `max_ops` operator nodes over all operators; leaves alternate by position so that
+/// neighbouring operands differ
 pub fn enumerate_asts(max_ops: usize) -> Vec<Ast> {
-    // leaves alternate by position so that neighbouring operands differ
-    fn leaf(counter: &mut usize) -> Ast {
-        let l = match *counter % 4 {
-            0 => Ast::Read("a".into()),
-            1 => Ast::Const(RV::Int(1)),
-            2 => Ast::Read("b".into()),
-            _ => Ast::Const(RV::Float(2.5)),
-        };
-        *counter += 1;
-        l
-    }
+    enumerate_asts_with(max_ops, &mut |_, pos| match pos % 4 {
+        0 => Ast::Read("a".into()),
+        1 => Ast::Const(RV::Int(1)),
+        2 => Ast::Read("b".into()),
+        _ => Ast::Const(RV::Float(2.5)),
+    })
+}
+
+/// `leaf(ast_index, leaf_position)` makes the leaves
+pub fn enumerate_asts_with(max_ops: usize, leaf: &mut dyn FnMut(usize, usize) -> Ast) -> Vec<Ast> {
     // shapes: trees of operator kinds with holes; built bottom-up by number of operator nodes
     #[derive(Clone)]
     enum Shape {
@@ -111,21 +111,25 @@ pub fn enumerate_asts(max_ops: usize) -> Vec<Ast> {
         }
         by_size.push(v);
     }
-    fn fill(s: &Shape, counter: &mut usize) -> Ast {
+    fn fill(s: &Shape, index: usize, counter: &mut usize, leaf: &mut dyn FnMut(usize, usize) -> Ast) -> Ast {
         match s {
-            Shape::Leaf => leaf(counter),
+            Shape::Leaf => {
+                let l = leaf(index, *counter);
+                *counter += 1;
+                l
+            },
             Shape::Un(k, x) => match *k {
-                0 => Ast::Un("neg", Box::new(fill(x, counter))),
-                1 => Ast::Un("!", Box::new(fill(x, counter))),
+                0 => Ast::Un("neg", Box::new(fill(x, index, counter, leaf))),
+                1 => Ast::Un("!", Box::new(fill(x, index, counter, leaf))),
                 k if k < 2 + ASSIGNOPS.len() => {
                     let t = if *counter % 2 == 0 { "x" } else { "y" };
-                    Ast::Assign(ASSIGNOPS[k - 2], t.into(), Box::new(fill(x, counter)))
+                    Ast::Assign(ASSIGNOPS[k - 2], t.into(), Box::new(fill(x, index, counter, leaf)))
                 },
-                _ => Ast::Call("f".into(), Box::new(fill(x, counter))),
+                _ => Ast::Call("f".into(), Box::new(fill(x, index, counter, leaf))),
             },
             Shape::Bin(k, l, r) => {
-                let a = fill(l, counter);
-                let b = fill(r, counter);
+                let a = fill(l, index, counter, leaf);
+                let b = fill(r, index, counter, leaf);
                 if *k < BINOPS.len() {
                     Ast::Bin(BINOPS[*k], Box::new(a), Box::new(b))
                 } else if *k == BINOPS.len() {
@@ -140,7 +144,8 @@ pub fn enumerate_asts(max_ops: usize) -> Vec<Ast> {
     for shapes in by_size.iter().skip(1) {
         for s in shapes {
             let mut c = 0;
-            out.push(fill(s, &mut c));
+            let idx = out.len();
+            out.push(fill(s, idx, &mut c, leaf));
         }
     }
     out
